@@ -615,6 +615,18 @@ def make_machine(stats, box):
             else:
                 self.do({'op': 'use_local_label', 'name': n})
 
+        @rule(mid=st.sampled_from(['b10', 'b1', 'ADH']), top=name, v=st.integers(min_value=2, max_value=30))
+        def idiom_chain_through_literal_lookalike(self, mid, top, v):
+            """#define b10 7 / #define SEL b10 / .byte SEL  - a link of the chain is spelled like a numeric literal"""
+            m = self.model
+            if top == mid or top in m.symbols:
+                return
+            if mid not in m.symbols:
+                self.do({'op': 'define', 'name': mid, 'value': str(v)}, check=False)
+            self.do({'op': 'define', 'name': top, 'value': mid}, check=False)
+            self.do({'op': 'use', 'text': top, 'directive': '.byte'})
+            self.do({'op': 'use', 'text': f'{top} + 1, {mid}', 'directive': '.byte'})
+
         @rule(n=name, k=st.integers(min_value=4, max_value=6))
         def idiom_local_label_symbol(self, n, k):
             """#define S lbl<k> / glb: / .S: / .2byte .S   (S names a local label; `.S` is the first token of its line)"""
